@@ -304,6 +304,7 @@ type vsrvSession struct {
 	srvClosed      bool
 	s2cLen         int
 	blockedWriters int
+	writesDone     int // server Write calls that have returned
 	srvBytesOut    int64
 	cliBytesOut    int64
 
@@ -531,6 +532,7 @@ func (c vsrvSrvConn) Write(p []byte) (int, error) {
 		p = p[space:]
 		total += space
 	}
+	s.writesDone++
 	return total, nil
 }
 
@@ -639,7 +641,7 @@ func (s *vsrvSession) cliWindowUpdate(stream, incr uint32) {
 func (s *vsrvSession) cliRST(stream, code uint32) {
 	s.cliWrite(h2ref.AppendRSTStream(nil, stream, code))
 }
-func (s *vsrvSession) cliPing(data [8]byte) { s.cliWrite(h2ref.AppendPing(nil, false, data)) }
+func (s *vsrvSession) cliPing(data [8]byte)    { s.cliWrite(h2ref.AppendPing(nil, false, data)) }
 func (s *vsrvSession) cliPingAck(data [8]byte) { s.cliWrite(h2ref.AppendPing(nil, true, data)) }
 func (s *vsrvSession) cliData(stream uint32, end bool, data []byte) {
 	s.cliWrite(h2ref.AppendData(nil, stream, end, data, -1))
